@@ -370,6 +370,147 @@ static void big_case(uint64_t idx, void *vctx)
     if (!vf_in_confirm) vf_outcome(hh);
 }
 
+/* ---------- the wide (float) pipeline: same positions, filters and repeat rules; real-valued reference ----------
+ * A composite is evaluated in floating point when any of its images has more than 8 bits per channel.  The per-pixel float fetchers
+ * are separate code from the 8-bit ones.  Reference: the exact position as above; nearest = that pixel; bilinear = the four neighbours
+ * weighted by the fraction of p - 1/2 (the float fetcher uses the full 16-bit fraction, the statement names 7 bits: the tolerance
+ * admits both); convolution = the kernel sum.  Accepted: within one destination step (+ the 7-bit weight slack) of the real value. */
+typedef struct { int w, h, repeat; const long double *px; /* w*h*4, a r g b in [0,1] */ } wsrc_t;
+static void w_pixel(const wsrc_t *s, int x, int y, long double out[4])
+{
+    if (!ref_repeat(s->repeat, &x, s->w) || !ref_repeat(s->repeat, &y, s->h)) { out[0] = out[1] = out[2] = out[3] = 0; return; }
+    for (int c = 0; c < 4; c++) out[c] = s->px[(y * s->w + x) * 4 + c];
+}
+static void w_sample(const wsrc_t *s, const filt_t *f, int64_t px, int64_t py, long double out[4], long double *slack)
+{
+    *slack = 0;
+    if (f->kind == 0) { w_pixel(s, (int)fl16(px - EPS), (int)fl16(py - EPS), out); return; }
+    if (f->kind == 1) {
+        int64_t x1 = px - FX1 / 2, y1 = py - FX1 / 2;
+        long double fx = (long double)(x1 & 0xffff) / 65536.0L, fy = (long double)(y1 & 0xffff) / 65536.0L;
+        int ix = (int)fl16(x1), iy = (int)fl16(y1);
+        long double tl[4], tr[4], bl[4], br[4]; w_pixel(s, ix, iy, tl); w_pixel(s, ix + 1, iy, tr); w_pixel(s, ix, iy + 1, bl); w_pixel(s, ix + 1, iy + 1, br);
+        for (int c = 0; c < 4; c++) {
+            out[c] = tl[c] * (1 - fx) * (1 - fy) + tr[c] * fx * (1 - fy) + bl[c] * (1 - fx) * fy + br[c] * fx * fy;
+            long double lo = tl[c], hi = tl[c]; const long double v[3] = { tr[c], bl[c], br[c] };
+            for (int k = 0; k < 3; k++) { if (v[k] < lo) lo = v[k]; if (v[k] > hi) hi = v[k]; }
+            if ((hi - lo) / 64 > *slack) *slack = (hi - lo) / 64;       /* weights quantised to 7 bits on either axis */
+        }
+        return;
+    }
+    /* plain convolution */
+    int cw = f->p[0] >> 16, ch = f->p[1] >> 16;
+    int x1 = (int)fl16(px - EPS - (((int64_t)f->p[0] - FX1) >> 1)), y1 = (int)fl16(py - EPS - (((int64_t)f->p[1] - FX1) >> 1));
+    for (int c = 0; c < 4; c++) out[c] = 0;
+    for (int j = 0; j < ch; j++) for (int i = 0; i < cw; i++) {
+        long double wgt = (long double)f->p[2 + j * cw + i] / 65536.0L, p[4];
+        if (wgt == 0) continue;
+        w_pixel(s, x1 + i, y1 + j, p);
+        for (int c = 0; c < 4; c++) out[c] += p[c] * wgt;
+    }
+    for (int c = 0; c < 4; c++) { if (out[c] < 0) out[c] = 0; if (out[c] > 1) out[c] = 1; }
+}
+static void wide_case(uint64_t idx, void *vctx)
+{
+    c8_ctx *c = vctx; uint64_t idx0 = idx;
+    pixman_transform_t t; memset(&t, 0, sizeof t);
+    if (!c->projective) {
+        int i00 = (int)(idx % 7); idx /= 7; int i11 = (int)(idx % 3); idx /= 3; int i01 = (int)(idx % 3); idx /= 3; int i10 = (int)(idx % 3); idx /= 3; int itx = (int)(idx % 8); idx /= 8; int ity = (int)(idx % 3);
+        static const int q11[3] = { 0, 2, 5 }, qty[3] = { 0, 3, 6 };
+        t.matrix[0][0] = A00[i00]; t.matrix[1][1] = A00[q11[i11]]; t.matrix[0][1] = A01[i01]; t.matrix[1][0] = A01[i10];
+        t.matrix[0][2] = TT[itx]; t.matrix[1][2] = TT[qty[ity]]; t.matrix[2][2] = FX1;
+    } else {
+        int pr = (int)(idx % 8); idx /= 8; int i00 = (int)(idx % 4); idx /= 4; int itx = (int)(idx % 8); idx /= 8; int i01 = (int)(idx % 3);
+        t.matrix[0][0] = A00[i00]; t.matrix[1][1] = A00[(i00 + 1) % 4]; t.matrix[0][1] = A01[i01]; t.matrix[1][0] = A01[(i01 + 1) % 3];
+        t.matrix[0][2] = TT[itx]; t.matrix[1][2] = TT[(itx + 3) % 8];
+        t.matrix[2][0] = PROJ[pr][0]; t.matrix[2][1] = PROJ[pr][1]; t.matrix[2][2] = PROJ[pr][2];
+    }
+    char tdesc[160];
+    snprintf(tdesc, sizeof tdesc, "[%d %d %d; %d %d %d; %d %d %d]", t.matrix[0][0], t.matrix[0][1], t.matrix[0][2], t.matrix[1][0], t.matrix[1][1], t.matrix[1][2], t.matrix[2][0], t.matrix[2][1], t.matrix[2][2]);
+    static const pixman_repeat_t reps[4] = { PIXMAN_REPEAT_NONE, PIXMAN_REPEAT_NORMAL, PIXMAN_REPEAT_PAD, PIXMAN_REPEAT_REFLECT };
+    /* (source format, destination format): at least one of them wide */
+    static const pixman_format_code_t SFW[3] = { PIXMAN_a8r8g8b8, PIXMAN_a2r10g10b10, PIXMAN_rgba_float }, DFW[3] = { PIXMAN_rgba_float, PIXMAN_a8r8g8b8, PIXMAN_a8r8g8b8 };
+    static const char *SFWN[3] = { "a8r8g8b8", "a2r10g10b10", "rgba_float" }, *DFWN[3] = { "rgba_float", "a8r8g8b8", "a8r8g8b8" };
+    static const int wfil[4] = { 0, 1, 3, 5 };          /* nearest, bilinear, conv2x2, conv3x1 */
+    uint64_t ev = 0, nt = 0, hh = 0;
+    for (int si = 1; si < 4; si++) for (int fi = 0; fi < 3; fi++) {
+        int sw = SZ[si][0], sh = SZ[si][1];
+        long double px[16 * 4]; uint32_t sbuf[16 * 4]; memset(sbuf, 0, sizeof sbuf);
+        int sbpp = PIXMAN_FORMAT_BPP(SFW[fi]); int stride = fi == 2 ? sw * 16 : sw * 4;
+        for (int i = 0; i < sw * sh; i++) {
+            unsigned k = (unsigned)i + 1;
+            if (fi == 0) { unsigned a = (0x40 + 11 * k) & 0xff, r = (0x10 + 13 * k) & 0xff, g = (0xf0 - 9 * k) & 0xff, b = (0x08 + 15 * k) & 0xff;
+                           sbuf[i] = a << 24 | r << 16 | g << 8 | b; px[i * 4] = a / 255.0L; px[i * 4 + 1] = r / 255.0L; px[i * 4 + 2] = g / 255.0L; px[i * 4 + 3] = b / 255.0L; }
+            else if (fi == 1) { unsigned a = k & 3, r = (0x040 + 111 * k) & 0x3ff, g = (0x3f0 - 93 * k) & 0x3ff, b = (0x008 + 157 * k) & 0x3ff;
+                           sbuf[i] = a << 30 | r << 20 | g << 10 | b; px[i * 4] = a / 3.0L; px[i * 4 + 1] = r / 1023.0L; px[i * 4 + 2] = g / 1023.0L; px[i * 4 + 3] = b / 1023.0L; }
+            else { float *f = (float *)sbuf + i * 4; f[0] = (float)((k * 37) % 101) / 100.0f; f[1] = (float)((k * 53) % 97) / 96.0f; f[2] = (float)((k * 11) % 89) / 88.0f; f[3] = (float)((k * 29) % 83) / 82.0f;
+                   px[i * 4] = f[3]; px[i * 4 + 1] = f[0]; px[i * 4 + 2] = f[1]; px[i * 4 + 3] = f[2]; }
+        }
+        (void)sbpp;
+        pixman_image_t *src = pixman_image_create_bits(SFW[fi], sw, sh, sbuf, stride);
+        pixman_image_set_transform(src, &t);
+        for (int fk = 0; fk < 4; fk++) {
+            const filt_t *F = &FIL[wfil[fk]];
+            if (c->projective && fk >= 2) continue;
+            if (F->kind == 0) pixman_image_set_filter(src, PIXMAN_FILTER_NEAREST, NULL, 0);
+            else if (F->kind == 1) pixman_image_set_filter(src, PIXMAN_FILTER_BILINEAR, NULL, 0);
+            else pixman_image_set_filter(src, PIXMAN_FILTER_CONVOLUTION, F->p, F->n);
+            for (int ri = 0; ri < 4; ri++) {
+                pixman_image_set_repeat(src, reps[ri]);
+                wsrc_t ws = { sw, sh, reps[ri], px };
+                float dfl[DH][DW][4]; uint32_t d32[DH][DW];
+                memset(dfl, 0, sizeof dfl); memset(d32, 0xa5, sizeof d32);
+                pixman_image_t *dst = fi == 0 ? pixman_image_create_bits(PIXMAN_rgba_float, DW, DH, (uint32_t *)&dfl[0][0][0], DW * 16) : pixman_image_create_bits(PIXMAN_a8r8g8b8, DW, DH, &d32[0][0], DW * 4);
+                ph_set_cfg(PH_CFG_DEFAULT);
+                pixman_image_composite32(PIXMAN_OP_SRC, src, NULL, dst, 0, 0, 0, 0, 0, 0, DW, DH);
+                pixman_image_unref(dst);
+                vf_count_libcalls(1); ev++;
+                for (int y = 0; y < DH; y++) for (int x = 0; x < DW; x++) {
+                    int64_t cx = (int64_t)(2 * x + 1) * (FX1 / 2), cy = (int64_t)(2 * y + 1) * (FX1 / 2);
+                    int64_t vx = ((int64_t)t.matrix[0][0] * cx + (int64_t)t.matrix[0][1] * cy + (int64_t)t.matrix[0][2] * FX1 + 0x8000) >> 16;
+                    int64_t vy = ((int64_t)t.matrix[1][0] * cx + (int64_t)t.matrix[1][1] * cy + (int64_t)t.matrix[1][2] * FX1 + 0x8000) >> 16;
+                    int64_t vw = ((int64_t)t.matrix[2][0] * cx + (int64_t)t.matrix[2][1] * cy + (int64_t)t.matrix[2][2] * FX1 + 0x8000) >> 16;
+                    int64_t candx[3], candy[3]; int nc = 1;
+                    if (!c->projective) { candx[0] = vx; candy[0] = vy; }
+                    else if (vw == 0) { candx[0] = 0; candy[0] = 0; }
+                    else {
+                        __int128 qx = ((__int128)vx << 16), qy = ((__int128)vy << 16);
+                        int64_t fx = (int64_t)(qx / vw), fy = (int64_t)(qy / vw);
+                        if ((qx % vw != 0) && ((qx < 0) != (vw < 0))) fx--;
+                        if ((qy % vw != 0) && ((qy < 0) != (vw < 0))) fy--;
+                        candx[0] = fx; candx[1] = fx + 1; candx[2] = fx - 1; candy[0] = fy; candy[1] = fy + 1; candy[2] = fy - 1; nc = 3;
+                    }
+                    long double got[4];
+                    if (fi == 0) { got[0] = dfl[y][x][3]; got[1] = dfl[y][x][0]; got[2] = dfl[y][x][1]; got[3] = dfl[y][x][2]; }
+                    else { got[0] = (d32[y][x] >> 24) / 255.0L; got[1] = ((d32[y][x] >> 16) & 255) / 255.0L; got[2] = ((d32[y][x] >> 8) & 255) / 255.0L; got[3] = (d32[y][x] & 255) / 255.0L; }
+                    long double step = fi == 0 ? 2e-4L : 1.0L / 255 + 1e-6L;
+                    int ok = 0, judged = 0; long double want0[4] = { 0, 0, 0, 0 };
+                    for (int a = 0; a < nc && !ok; a++) for (int b = 0; b < nc && !ok; b++) {
+                        if (candx[a] != (int32_t)candx[a] || candy[b] != (int32_t)candy[b]) continue;
+                        long double want[4], slack; w_sample(&ws, F, candx[a], candy[b], want, &slack);
+                        if (!judged) memcpy(want0, want, sizeof want0);
+                        judged = 1;
+                        int all = 1; for (int ch = 0; ch < 4; ch++) { long double df = got[ch] - want[ch]; if (df < 0) df = -df; if (!(df <= step + slack)) all = 0; }
+                        if (all) ok = 1;
+                    }
+                    if (!judged) continue;
+                    if (!ok) {
+                        vf_violation(c->projective ? "c08-wide-projective-sample-mismatch" : "c08-wide-sample-mismatch",
+                                     "wide pipeline: source %s %dx%d repeat=%d filter=%s transform %s -> %s: destination (%d,%d) = a %.5Lf r %.5Lf g %.5Lf b %.5Lf, reference a %.5Lf r %.5Lf g %.5Lf b %.5Lf (one destination step%s allowed)",
+                                     SFWN[fi], sw, sh, ri, F->name, tdesc, DFWN[fi], x, y, got[0], got[1], got[2], got[3], want0[0], want0[1], want0[2], want0[3], F->kind == 1 ? " + the 7-bit weight slack" : "");
+                        pixman_image_unref(src); return;
+                    }
+                    uint32_t hb = (uint32_t)(got[1] * 1023); hh = vf_mix(hh, hb); if (hb) nt++;
+                }
+            }
+        }
+        pixman_image_unref(src);
+    }
+    vf_count_eval(ev); vf_count_nontrivial(nt ? ev : 0);
+    if (!vf_in_confirm) vf_outcome(hh);
+    if (vf_want_sample() && !vf_in_confirm && (idx0 % 197) == 13) vf_sample("wide pipeline, transform %s: 3 source sizes x 3 format pairs x 4 filters x 4 repeats, every destination pixel within one step of the real-valued reference", tdesc);
+}
+
 int main(int argc, char **argv)
 {
     vf_init(argc, argv, "C08", "exploration");
@@ -382,17 +523,19 @@ int main(int argc, char **argv)
     vf_rule = "E1: a case is one 3x3 fixed-point transform; inside it every (source size, format, filter, repeat, request origin, configuration) is drawn with OP_SRC into a 6x5 a8r8g8b8 "
               "destination and every pixel compared bit-exactly with an integer model of rounding.txt (projective: any of the 9 positions within one ulp of the quotient). "
               "evaluations = composites; non-trivial = composites of cases that produced a non-zero pixel; outcomes = distinct destination digests per transform.";
-    vf_assume("narrow formats only (a8r8g8b8, x8r8g8b8, r5g6b5, a8): wide-format sampling is covered by tolerance checks in C01/C10, not here");
+    vf_assume("bit-exact comparison for narrow formats (a8r8g8b8, x8r8g8b8, r5g6b5, a8); the wide (float) pipeline - a2r10g10b10 and rgba_float sources, rgba_float destination - is compared with a real-valued reference within one destination step");
     vf_assume("sample positions representable in 16.16; source sizes up to 4x4 so that every repeat fold is exercised");
     c8_ctx ca = { th, 0 }, cp = { th, 1 };
     uint64_t naff = th ? (uint64_t)7 * 7 * 5 * 5 * 8 * 8 : (uint64_t)7 * 3 * 3 * 3 * 8 * 3;
     vf_space_run("affine-transforms", naff, c8_case, &ca);
     vf_space_run("projective-transforms", 8 * 4 * 8 * 3, c8_case, &cp);
+    vf_space_run("wide-pipeline-affine", (uint64_t)7 * 3 * 3 * 3 * 8 * 3, wide_case, &ca);
+    vf_space_run("wide-pipeline-projective", 8 * 4 * 8 * 3, wide_case, &cp);
     big_ctx cb = { th };
     vf_space_run("wide-and-tall-sources", 3 * 7 * 6 * 4 * 2, big_case, &cb);
-    static char b[700];
+    static char b[1100];
     snprintf(b, sizeof b, "%llu affine transforms (m00 x m11 x m01 x m10 x tx x ty alphabets incl. +-1/2, +-1, 1+e, 2, 1/3 and translations 0, +-e, 1/2-e, 1/2, -1/2, 1, 3-e) + 768 projective; "
-             "%d filters (nearest, bilinear, 7 convolution kernels incl. negative lobes, %d separable tables); 4 repeats; sources 1x1 2x2 3x2 4x4 x 4 formats; 3 configurations; wide/tall sources: sizes 32766, 32765, 32700, 20000 (x2 and 2x; the library drops transformed requests on sources of 32767 or more) x 6 scales x 7 first-sample positions "
+             "%d filters (nearest, bilinear, 7 convolution kernels incl. negative lobes, %d separable tables); 4 repeats; sources 1x1 2x2 3x2 4x4 x 4 formats; 3 configurations; wide pipeline: 4536 affine + 768 projective transforms x 3 sizes x 3 format pairs (a8r8g8b8->rgba_float, a2r10g10b10->a8r8g8b8, rgba_float->a8r8g8b8) x {nearest, bilinear, conv2x2, conv3x1} x 4 repeats; wide/tall sources: sizes 32766, 32765, 32700, 20000 (x2 and 2x; the library drops transformed requests on sources of 32767 or more) x 6 scales x 7 first-sample positions "
              "(left of the image, at its start, middle, end, end of the coordinate range) x 3 sub-pixel offsets x nearest/bilinear x 4 repeats x 4 formats x {SRC, OVER} x {a8r8g8b8, r5g6b5} destinations x 3 configurations",
              (unsigned long long)naff, NFIL, NFIL - 9);
     vf_bounds = b;
